@@ -25,6 +25,13 @@ func FuzzRtmpServerSession(f *testing.F) {
 			Order: []int{0, 1, 0, 1}, Scs: []IlvScs{{After: 2, Size: 64, Adopt: true}}}}}
 		f.Add(byte(0), render(c))
 	}
+	// digest ("complex") handshakes a mutator cannot forge: C1 signed for either scheme (lal does not verify C2, so
+	// the zero placeholder passes), followed by a session; mutations behind C1 keep lal in digest mode
+	for _, hs := range []Case{{Handshake: "digest"}, {Handshake: "digest1", HsOffs: "ffffffff"}} {
+		hs.Stage, hs.Stream, hs.Trunc = "publishing", "s1", -1
+		hs.Msgs = []Msg{{Kind: "raw", Type: 9, RawHex: "17010000000000000565aabbccdd", Csid: 6, Msid: 1}}
+		f.Add(byte(0), render(hs))
+	}
 	f.Add(byte(1), []byte{0x02, 0, 0, 0, 0, 0, 4, 5, 0, 0, 0, 0, 0, 0, 0, 1})
 	f.Add(byte(2), []byte{0x06, 0, 0, 0, 0, 0, 1, 9, 1, 0, 0, 0, 0x17})
 	f.Add(byte(3), []byte{0x43, 0, 0, 0, 0, 0, 3, 20, 2, 0, 0})
